@@ -355,3 +355,5 @@ func mkCase(sc *gen.Script, vars map[string]string, bal map[string]string) *gen.
 	c.Tune = make([]func(*big.Int), len(sc.Stmts))
 	return c
 }
+
+type bigInt = big.Int
